@@ -265,3 +265,4 @@ def shrink(case):
             c["tasks"] = [dict(t, data=d) if t["id"] in ("pretty", "events") else t for t in c["tasks"]]
             yield c
         break
+    yield from common.shrink_buffers(case, ("pretty", "events"))
